@@ -566,3 +566,7 @@ func replay(p *Prop, path, root string) int {
 	}
 	return 1
 }
+
+// ScratchCtx returns a context that only counts locally (for use by generators that need
+// to run the implementation once to learn the shape of the space).
+func ScratchCtx(dir string) *Ctx { return &Ctx{Dir: dir, w: newW(), Quiet: true} }
